@@ -55,6 +55,13 @@ class LineRun:
             return {"what": "lost wake-up: _write_event is an event no writer waits on"}
         if any(e not in waited for e in list(z._write_waiters)):
             return {"what": "stale event in _write_waiters: no writer waits on it (its wake-up will be lost)"}
+        for w in ws:
+            if getattr(w, "phase", None) == "waiting" and not w.done and w.gate[:1] == ("line",) and len(w.gate) > 2 \
+                    and w.gate[2] == "Event.wait":
+                e = w.last_event
+                if e is not None and not e.flag and e is not z._write_event and e not in z._write_waiters:
+                    return {"what": "a waiting writer's event is neither queued nor the wake-up token: it can "
+                                    "never be woken", "thread": w.tid}
         if not r.all_done() and not r.enabled_tids():
             return {"what": "deadlock: unfinished threads and no step enabled",
                     "gates": [repr(w.gate[2:]) for w in ws if not w.done]}
@@ -272,7 +279,7 @@ def window_check(ctx):
 
 W1 = [0, 0, [[0, 2, 1]], 1]
 W2 = [0, 0, [[0, 3, 2], [1, 2]], 1]
-WR = [0, 0, [[0, 2, 7]], 2]
+WR = [0, 0, [[0, 2, 7]], 3]
 R = [1, None]
 P = [2, 1]
 
